@@ -165,6 +165,10 @@ def str_method(interp, st, s, name, args, kwargs, node):
             return z3.Concat(*parts) if len(parts) > 1 else parts[0]
         _raise("TypeError", "sequence item: expected str instance", node)
     if is_sym_str(s):
+        if name in ("rstrip", "strip", "lstrip") and not args:
+            # opaque: the stripped text (A3); the contracts use the same function
+            interp.assumed.add("A3 str.%s(): uninterpreted function of the text" % name)
+            return z3.Function("str_" + name, z3.StringSort(), z3.StringSort())(s)
         if name == "startswith" and isinstance(args[0], str):
             return z3.PrefixOf(z3.StringVal(args[0]), s)
         if name == "endswith" and isinstance(args[0], str):
